@@ -216,6 +216,24 @@ def run_opt(case, options, context, labels):
         got2 = [o2.get_task(i).options for i in range(o2.ntasks)]
         if got2 != expected:
             raise Violation(f"tasks differ after {what} round trip")
+    # file round trip (save writes the dictionary as JSON text)
+    import os
+    import tempfile
+    from vf.core import OUT
+    (OUT / "tmp").mkdir(parents=True, exist_ok=True)
+    fd, fname = tempfile.mkstemp(prefix="opm-", suffix=".json",
+                                 dir=OUT / "tmp")
+    os.close(fd)
+    try:
+        opm.save(fname, overwrite=True)
+        o3 = hyruns.OptionManager.from_file(fname, wait_secs=0)
+        if not (opm == o3 and o3 == opm):
+            raise Violation("manager saved to a file and read back is not "
+                            "equal to the original")
+        if [o3.get_task(i).options for i in range(o3.ntasks)] != expected:
+            raise Violation("tasks differ after the file round trip")
+    finally:
+        os.unlink(fname)
     # find
     for k in keys:
         for v in lists[k]:
